@@ -217,11 +217,14 @@ func (sfd *StatusFileData) Save(filename string) error {
 		return err
 	}
 	defer sfd.unlockStatusFile(filename, lockFile)
+	verifCrashPoint("save.locked")
 	file, err := os.OpenFile(filename, os.O_CREATE|os.O_WRONLY|os.O_TRUNC, 0o600)
 	if err != nil {
 		return err
 	}
+	verifCrashPoint("save.truncated")
 	err = sfd.saveToFile(file)
+	verifCrashPoint("save.written")
 	if err != nil {
 		serr := file.Close()
 
@@ -317,6 +320,8 @@ func (sfd *StatusFileData) UpdateFullStatus(filename string, statusFunc func(*St
 			return err
 		}
 	}
+	verifOld := verifSnapshot(sfd)
+	verifCrashPoint("update.loaded")
 	statusFunc(sfd)
 	_, err = file.Seek(0, 0)
 	if err != nil {
@@ -326,10 +331,13 @@ func (sfd *StatusFileData) UpdateFullStatus(filename string, statusFunc func(*St
 	if err != nil {
 		return err
 	}
+	verifCrashPoint("update.truncated")
 	err = sfd.saveToFile(file)
 	if err != nil {
 		return err
 	}
+	verifStatusWrite(filename, size == 0, verifOld, sfd)
+	verifCrashPoint("update.written")
 
 	return nil
 }
